@@ -83,6 +83,13 @@ class Verdict:
     def add(self, sig, record, count=1):
         e = self.by_sig.setdefault(sig, {"count": 0, "examples": []})
         e["count"] += count
+        if record is not None and len(e["examples"]) >= 3:
+            # keep, besides the first three, the three examples with the largest index: when an outcome depends on what the
+            # worker process did before (state carried from case to case), a later, self-contained case may still replay
+            late = e.setdefault("late", [])
+            late.append(record)
+            late.sort(key=lambda r: r.get("idx", 0))
+            del late[:-3]
         if record is not None and len(e["examples"]) < 3:
             e["examples"].append(record)
 
@@ -101,23 +108,35 @@ class Verdict:
                         self.prop_id, self.known[ksig].get("what", ""), ksig,
                         sum(v["count"] for s, v in self.by_sig.items() if self._match_known(s) == ksig)))
                 continue
-            ex = sorted(e["examples"], key=lambda r: r.get("idx", 0))[0] if e["examples"] else {"sig": sig}
-            ex = dict(ex)
-            ex["property"] = self.prop_id
-            ex["sig"] = sig
-            path = write_replay(self.prop_id, ex)
-            if self.gate and gated < max_gated and "case" in ex:
+            cands = sorted(e["examples"], key=lambda r: r.get("idx", 0))[:1] + list(reversed(e.get("late", []))) if e["examples"] else [{"sig": sig}]
+            stable = None
+            first_fail = None
+            for ci, ex in enumerate(cands[:3]):
+                ex = dict(ex)
+                ex["property"] = self.prop_id
+                ex["sig"] = sig
+                path = write_replay(self.prop_id, ex)
+                if not (self.gate and gated < max_gated and "case" in ex):
+                    stable = (ex, path)
+                    break
                 gated += 1
                 o1 = replay_in_fresh_process(self.prop_id, path)
                 o2 = replay_in_fresh_process(self.prop_id, path)
                 ok1 = o1.get("violated") and o1.get("sig") == sig
                 ok2 = o2.get("violated") and o2.get("sig") == sig
-                if not (ok1 and ok2):
-                    self.unstable.append((sig, path, o1, o2))
-                    print("UNSTABLE property=%s sig=%s replay=%s first=%s second=%s" % (
-                        self.prop_id, sig, path, json.dumps(o1, default=jdefault)[:300],
-                        json.dumps(o2, default=jdefault)[:300]))
-                    continue
+                if ok1 and ok2:
+                    stable = (ex, path)
+                    break
+                if first_fail is None:
+                    first_fail = (path, o1, o2)
+            if stable is None:
+                path, o1, o2 = first_fail
+                self.unstable.append((sig, path, o1, o2))
+                print("UNSTABLE property=%s sig=%s replay=%s first=%s second=%s" % (
+                    self.prop_id, sig, path, json.dumps(o1, default=jdefault)[:300],
+                    json.dumps(o2, default=jdefault)[:300]))
+                continue
+            ex, path = stable
             n_new += 1
             print("VIOLATION property=%s replay=%s  # %s (%d case(s)) %s" % (
                 self.prop_id, path, sig, e["count"], str(ex.get("msg", ""))[:200].replace("\n", " ")))
